@@ -846,6 +846,15 @@ class InspectFunction(object):
                 raise DDSException(f"Wrong number of args: expected 1, got {node.args}")
             store_path = cls._retrieve_store_path(node.args[0], mod, gctx, local_path)
             _logger.debug(f"inspect_call:eval: store_path: {store_path}")
+            # The path must be known at this point of the traversal: either it is external to this
+            # evaluation (resolved from the store beforehand) or it was produced by an earlier call.
+            if store_path not in gctx.resolved_references:
+                raise DDSException(
+                    f"The path {store_path} is loaded in {local_path} before it is produced in this"
+                    f" evaluation (call stack: {call_stack}). Suggestion: produce the path (dds.keep or"
+                    f" data function) before the call that loads it.",
+                    DDSErrorCode.STORE_PATH_NOT_FOUND,
+                )
             return store_path
 
         elif caller_fun_path == CanonicalPathUtils.from_list(["dds", "eval"]):
